@@ -226,12 +226,13 @@ def process_custom(custom: ct.CustomSelectors | None) -> dict[str, str | ct.Sele
     custom_selectors = {}
     if custom is not None:
         for key, value in custom.items():
-            name = util.lower(key)
-            if RE_CUSTOM.match(name) is None:
-                raise SelectorSyntaxError(f"The name '{name}' is not a valid custom pseudo-class name")
+            if RE_CUSTOM.match(key) is None:
+                raise SelectorSyntaxError(f"The name '{util.lower(key)}' is not a valid custom pseudo-class name")
+            # Normalize the name the way a reference to it is normalized (unescape, then lower), and compare normalized names
+            name = util.lower(css_unescape(key))
             if name in custom_selectors:
                 raise KeyError(f"The custom selector '{name}' has already been registered")
-            custom_selectors[css_unescape(name)] = value
+            custom_selectors[name] = value
     return custom_selectors
 
 
